@@ -933,6 +933,8 @@ func (gqm *GroupQuotaManager) OnPodUpdate(newQuotaName, oldQuotaName string, new
 		if !shouldBeIgnored(newPod) {
 			if quotaInfo.IsPodExist(newPod) {
 				gqm.updatePodRequestNoLock(newQuotaName, oldPod, newPod)
+				// keep the cached object in step with the sums: MigratePod and the summaries consume it.
+				quotaInfo.refreshPodIfPresent(newPod)
 			} else {
 				// it's means the pod creation is before quota creation.
 				gqm.updatePodCacheNoLock(newQuotaName, newPod, true)
